@@ -88,6 +88,8 @@ def geometry_spec(draw, kinds=None, simple_lines=False, allow_degenerate=True, f
     def forward_line(lo=0.0, hi=4.0):
         n = draw(st.integers(2, 4 if small else 7))
         a, b = _sorted_distinct(draw, 2, u_el)
+        if not T(a) < T(b):  # free floats can collapse after the affine map
+            a, b = (a, a + 1.0) if a <= 3.0 else (a - 1.0, a)
         inner_u = draw(st.lists(u_el, min_size=n - 2, max_size=n - 2))
         if simple_lines:
             inner_u = sorted(min(max(x, a), b) for x in inner_u)
